@@ -26,6 +26,10 @@ import SqiProofs.ThetaBalanced
 import SqiModel.SkelTheta
 import SqiProofs.SkelThetaSim
 import SqiProofs.SkelThetaFSim
+import SqiProofs.SkelThetaConv
+import SqiProofs.SkelThetaFConv
+import SqiModel.SkelRec
+import SqiProofs.SkelRecSim
 import SqiProps.C18
 
 set_option maxRecDepth 100000
@@ -103,6 +107,26 @@ theorem translated_theta_chain_faster_refines (P : Params) (oracle : Nat → Boo
         (if P.eightAbove then 1 else 0) (SqiGen.ChainSkel.ThetaFSt.init (SqiModel.SkelTheta.OSt.init P.kexp))) (chain P) :=
   skel_refines P oracle fuel _ hfn hfr rfl he
 
+/-- **the tie is an equivalence on the fault status** (both routines): the run of the translated skeleton is fault-free
+    iff the hand model `chain` is (`SqiProofs.SkelThetaConv` / `SkelThetaFConv`: converse simulation with one "dies" lemma per
+    fault site of the hand model: `loop0_dead`, `pts_dead`, `loop4_dead`, `push_dead`, `strat_dead`, `while_dead`,
+    `body3_dead`, `iter_dead`, `for_dead`, `skel_dead`).  With `translated_theta_chain_refines` (same final state and logs
+    when fault-free) the kernel-evaluated `skeleton_agrees_small` is redundant. -/
+theorem translated_theta_chain_fault_iff (P : Params) (oracle : Nat → Bool) (fuel : Nat)
+    (hfn : P.n + 11 ≤ fuel) (hfr : P.row.length ≤ fuel) :
+    (((SqiGen.ChainSkel.theta_chain_comput_strategy SqiModel.SkelTheta.obs P.row oracle fuel P.n
+        (if P.eightAbove then 1 else 0) (SqiGen.ChainSkel.ThetaSt.init (SqiModel.SkelTheta.OSt.init P.kexp))).fault = none ∧
+      (SqiGen.ChainSkel.theta_chain_comput_strategy SqiModel.SkelTheta.obs P.row oracle fuel P.n
+        (if P.eightAbove then 1 else 0) (SqiGen.ChainSkel.ThetaSt.init (SqiModel.SkelTheta.OSt.init P.kexp))).obs.bad = false) ↔
+      (chain P).err = none) ∧
+    (((SqiGen.ChainSkel.theta_chain_comput_strategy_faster_no_eval SqiModel.SkelTheta.obs P.row oracle fuel P.n
+        (if P.eightAbove then 1 else 0) (SqiGen.ChainSkel.ThetaFSt.init (SqiModel.SkelTheta.OSt.init P.kexp))).fault = none ∧
+      (SqiGen.ChainSkel.theta_chain_comput_strategy_faster_no_eval SqiModel.SkelTheta.obs P.row oracle fuel P.n
+        (if P.eightAbove then 1 else 0) (SqiGen.ChainSkel.ThetaFSt.init (SqiModel.SkelTheta.OSt.init P.kexp))).obs.bad = false) ↔
+      (chain P).err = none) :=
+  ⟨SqiProofs.SkelThetaConv.skel_live_iff P oracle fuel _ hfn hfr rfl,
+   SqiProofs.SkelThetaFConv.skel_live_iff P oracle fuel _ hfn hfr rfl⟩
+
 /-- soundness of the hand model transferred to the translated text of both routines: no fault, the same number of
     strategy entries consumed, every gluing / generic kernel pair of exponent 3 (order 8), the two final ones 2 and 1 -/
 theorem translated_theta_chain_sound (P : Params) (oracle : Nat → Bool) (fuel sb : Nat)
@@ -158,6 +182,45 @@ theorem balanced_chain_sound (n : Nat) (hn : 4 ≤ n) :
     (balanced n).2 = [4] ∧ (balanced n).1.all (bevOk (balancedCap n)) = true ∧
     stepIdx (balanced n).1 = List.range' 0 (n - 3) :=
   balanced_sound n hn
+
+/-! ### the balanced recursion as translated text
+
+`SqiGen.ChainSkel.theta_chain_comput_rec` is the slice of the C function produced by tools/translate/chainskel.py
+(recursive mode: leading `if (len == 0) return;`, the per-frame constants `right`, `left` substituted, self-calls with
+an explicit recursion-depth fuel, the pointers `R1`, `R2`, `P1`, `P2` as array + offset).  Tie to the hand model `rec` /
+`balanced` (the object of `balanced_rec_sound`, `balanced_stack_bound`, `balanced_chain_sound`):
+`translated_rec_refines` (THEOREM, all inputs: every length, index, kernel exponent, stack, stack capacity, fuel ≥ capacity,
+on which the hand model reports no stack overflow; induction over the recursion depth, `SqiProofs.SkelRecSim.rec_sim`) and
+`translated_balanced_chain_sound`: `balanced_chain_sound` / `balanced_stack_bound` about the translated text — for every
+n ≥ 4, with the stack size 10·⌊log2(n-3)⌋+1 of the C, the translated recursion has no fault (in particular no write
+`P1[stacklen]` outside the stack), performs exactly the steps 0 … n-4 in order with kernel pairs of exponent 3 and leaves
+the carried pair with exponent 4.  Cross-checks kept: kernel evaluation on small lengths incl. a too-small stack
+(`skeleton_rec_agrees_small`) + the comparison executed for every 4 ≤ n < 257 (quick) / 1025 (thorough) on every check
+run (driver op `skel.rec`).  Not translated: the caller `theta_chain_comput_balanced` itself (the entry state — stack of
+size `balancedCap n`, Q of exponent n+1, R = [4]Q — is the hand model's `balanced`). -/
+
+open SqiProofs.SkelRecSim SqiModel.SkelRec in
+/-- the translated balanced recursion refines the hand model `rec`, for ALL inputs without stack overflow -/
+theorem translated_rec_refines (oracle : Nat → Bool) (fuel cap total : Nat) (hcf : cap ≤ fuel)
+    (F len index r : Nat) (stack : List Nat) (k : SqiGen.ChainSkel.RecSt OSt)
+    (hl : len ≤ F) (hit : index + len ≤ total) (hsc : stack.length ≤ cap) (hP : Pre k cap total r stack)
+    (hno : noOob (rec cap total (F + 1) len index r stack).1) :
+    Post (SqiGen.ChainSkel.theta_chain_comput_rec obs [] oracle fuel (F + 1) (len : Int) index 0 stack.length total 0 0 0 0 k)
+      k cap total (rec cap total (F + 1) len index r stack).2 (rec cap total (F + 1) len index r stack).1 :=
+  rec_sim oracle fuel cap total hcf F len index r stack k hl hit hsc hP hno
+
+open SqiProofs.SkelRecSim SqiModel.SkelRec in
+/-- `balanced_chain_sound` / `balanced_stack_bound` about the translated text -/
+theorem translated_balanced_chain_sound (oracle : Nat → Bool) (fuel n : Nat) (hn : 4 ≤ n) (hf : balancedCap n ≤ fuel) :
+    ∃ k, k = SqiGen.ChainSkel.theta_chain_comput_rec obs [] oracle fuel (n + 1) ((n - 3 : Nat) : Int) ((0 : Nat) : Int) 0
+        (([n + 1].length : Nat) : Int) (n : Int) 0 0 0 0
+        (SqiGen.ChainSkel.RecSt.init (OSt.entry (balancedCap n) n (n + 1 - 2) [n + 1])) ∧
+    k.fault = none ∧ k.obs.bad = false ∧
+    k.obs.steps.map (fun s => s.1) = (List.range' 0 (n - 3)).map (fun (i : Nat) => (i : Int)) ∧
+    (∀ s ∈ k.obs.steps, s.2.1 = 3) ∧ k.obs.p1 0 = some 4 ∧ k.obs.p2 0 = some 4 :=
+  balanced_skel_sound oracle fuel n hn hf
+
+theorem skeleton_rec_agrees_small : SqiModel.SkelRec.smallAllAgree = true := by decide +kernel
 
 /-! ## per level: the real tables -/
 
